@@ -106,6 +106,20 @@ def gen_rank(rng, N, D, r):
     return X
 
 
+def gen_rank_wide(rng, N, D, r):
+    """exact rank r integer data whose retained variances spread over up to 6 decades (principal standard deviations
+    1 : 32 : 1024, features 'in mixed units')"""
+    mean = [Fraction(rng.randint(-20, 20)) for _ in range(D)]
+    B = [[Fraction(rng.randint(-4, 4)) for _ in range(D)] for _ in range(r)]
+    w = [Fraction(1), Fraction(32), Fraction(1024)]
+    rng.shuffle(w)
+    X = []
+    for _ in range(N):
+        a = [Fraction(rng.randint(-6, 6)) * w[q % 3] for q in range(r)]
+        X.append([mean[i] + sum(a[q] * B[q][i] for q in range(r)) for i in range(D)])
+    return X
+
+
 def scaled_copy(c, k):
     """exact in binary64: the data (COV / EMB) or the probed matrix (RAW / OP / TRI) times 2^k"""
     s = Fraction(2) ** k
@@ -239,16 +253,20 @@ def gen_emb(rng, solver, size="small"):
         D = rng.choice([3, 4, 6])
         d = rng.randint(1, D - 1)
         N = rng.choice([8, 12, 20])
-        X = gen_rank(rng, N, D, d)
-        style = "rank-d"
+        wide = d >= 2 and rng.random() < 0.35
+        X = gen_rank_wide(rng, N, D, d) if wide else gen_rank(rng, N, D, d)
+        style = "rank-d-wide-spectrum" if wide else "rank-d"
     else:
         D = rng.choice([1, 2, 3, 4, 6, 10]) if size == "small" else rng.choice([12, 16])
         N = rng.choice([2, 3, 4, 8, 12, 20]) if size == "small" else rng.choice([32, 40])
         d = rng.randint(1, max(1, min(D, N - 1)))
         if size != "small":
             d = min(d, 4)           # exact rational decision procedures: keep D^2 d + N D d moderate
-        style = rng.choice(["correlated", "correlated", "correlated-exact", "int", "offset", "ties", "generic"])
-        if style == "correlated":
+        style = rng.choice(["correlated", "correlated", "correlated-exact", "int", "offset", "ties", "generic",
+                            "wide-spectrum"])
+        if style == "wide-spectrum":
+            X = gen_rank_wide(rng, N, D, min(D, 3))
+        elif style == "correlated":
             X = gen_correlated(rng, N, D, False)
         elif style == "correlated-exact":
             X = gen_correlated(rng, N, D, True)
@@ -406,6 +424,27 @@ def unit_of(c):
     return Fraction(2) ** (-c.get("scale_log2", 0))
 
 
+def floor_log2(f):
+    """floor(log2 f) of a positive Fraction, exactly"""
+    e = f.numerator.bit_length() - f.denominator.bit_length()
+    while Fraction(2) ** e > f:
+        e -= 1
+    while Fraction(2) ** (e + 1) <= f:
+        e += 1
+    return e
+
+
+def natural_unit(Cm_actual):
+    """2^-j with 4^j <= max|C| < 4^(j+1): brings a covariance matrix to magnitude [1, 4).  The decision procedures have ONE
+    tolerance for orthonormality (scale free) and for residuals (scale^2); evaluating every PCA run in units where
+    max|C| is of order 1 keeps the orthonormality tolerance at 1e-9 (1e-6 randomized) whatever the variance of the data
+    (with max|C| = 1e6 the old tolerance let an all-zero column of P pass).  Exact; theorem C06_scale_equivariant."""
+    big = maxabs(Cm_actual)
+    if big == 0:
+        return Fraction(1)
+    return Fraction(2) ** (-(floor_log2(big) // 2))
+
+
 def mscale(M, f):
     return M if f == 1 else [[v * f for v in row] for row in M]
 
@@ -457,6 +496,7 @@ def evaluate(ctx, exe, mexe, cases, st, record=True):
     probe_info, probe_failed = {}, {}
     post = []                                  # deferred work needing reference eigenvalues
     gs_fired, gs_norms = {}, {}                # randomized cases: did the replayed cut-off fire?
+    units = {}                                 # PCA cases: the exact unit the run is evaluated in
 
     def viol(i, why):
         if verdicts[i] in ("violation", "known"):
@@ -626,6 +666,9 @@ def evaluate(ctx, exe, mexe, cases, st, record=True):
         # ---- EMB (pca)
         N, d = c["N"], c["d"]
         Cm = model_matrix(model[(i, "cov")], D)
+        if Cm is not None:
+            u = natural_unit(Cm)              # subsumes the known 2^-k of a scaled copy
+        units[i] = u
         Cm = mscale(Cm, u * u) if Cm is not None else None
         emb, P, m = (mat_of(R.get(t, []), hexfloat) for t in ("emb", "P", "m"))
         emb, m = got_scale(emb, u), got_scale(m, u)
@@ -704,7 +747,7 @@ def evaluate(ctx, exe, mexe, cases, st, record=True):
         if order != list(range(d)):
             st.bump(st.views, "pca-columns-not-in-ascending-eigenvalue-order")
         cs, ps = fnums(flat(Cm)), fnums(flat(P))
-        Xn = mscale(c["X"], unit_of(c))
+        Xn = mscale(c["X"], units.get(i, unit_of(c)))
         xs = fnums(flat(Xn))
         spec_lines.append("SEIG %d %d %s %s %s %s" % (D, d, fr_hex(tol), cs, ps, fnums(top)))
         spec_owner.append((i, "PCA(%s): the returned projection matrix does not have orthonormal columns spanning "
@@ -803,7 +846,7 @@ def evaluate(ctx, exe, mexe, cases, st, record=True):
                 continue
             simple = all((ev[-q] - ev[-q - 1]) > lmax / 10 ** 5 for q in range(1, d)) if d > 1 else True
             for meth, r in (("kpca", oimpl[2 * j]), ("mds", oimpl[2 * j + 1])):
-                E = got_scale(mat_of(r["R"].get("emb", []), hexfloat), unit_of(c))
+                E = got_scale(mat_of(r["R"].get("emb", []), hexfloat), units.get(i, unit_of(c)))
                 if r["crashed"] or r["X"] is not None or E is None or (E[0], E[1]) != (N, d):
                     st.bump(st.skipped, "agreement:%s-no-output" % meth)
                     continue
